@@ -449,12 +449,28 @@ func containerReachesLoads(v ssa.Value, pred func(ssa.Value) bool) bool {
 
 // lockAnalysis holds the whole-module result.
 type lockAnalysis struct {
+	wrappers  map[*ssa.Function]map[string]string
+	releasers map[*ssa.Function]map[string]bool
 	c        *Ctx
 	monitors []*monitor
 	locks    map[*ssa.Function]*funcLocks
 }
 
+var laCache = map[*core.Prog]*lockAnalysis{}
+
+// lockAnalysis computes (once per loaded program) the module-wide lockset facts.
 func (c *Ctx) lockAnalysis() *lockAnalysis {
+	if la, ok := laCache[c.P]; ok {
+		lockWrappers, lockReleasers = la.wrappers, la.releasers
+		return la
+	}
+	la := c.lockAnalysis0()
+	la.wrappers, la.releasers = lockWrappers, lockReleasers
+	laCache[c.P] = la
+	return la
+}
+
+func (c *Ctx) lockAnalysis0() *lockAnalysis {
 	la := &lockAnalysis{c: c, monitors: c.monitors(), locks: map[*ssa.Function]*funcLocks{}}
 	mutMemo = map[*ssa.Function]int{}
 	modOnly = func(f *ssa.Function) bool { return f.Pkg != nil && c.P.IsModPkg(f.Pkg.Pkg) && !c.P.IsGenerated(f) }
